@@ -11,7 +11,45 @@ NIGHTLY = os.environ.get('VERIF_NIGHTLY', 'nightly')
 def sh(cmd, cwd=None, timeout=1800, env=None):
     return subprocess.run(cmd, cwd=cwd, capture_output=True, text=True, timeout=timeout, env=env or ENV)
 
+def source_digest(repo=None):
+    """sha256 over the path and content of every file of the checkout that can influence a build (everything outside .git and
+    target directories), plus the checkout's location."""
+    repo = repo or REPO
+    h = hashlib.sha256(os.path.realpath(repo).encode() + b'\0')
+    for root, dirs, files in os.walk(repo):
+        dirs[:] = sorted(d for d in dirs if d not in ('.git', 'target'))
+        for f in sorted(files):
+            p = os.path.join(root, f)
+            if not os.path.isfile(p): continue
+            h.update(os.path.relpath(p, repo).encode() + b'\0')
+            with open(p, 'rb') as fh: h.update(hashlib.sha256(fh.read()).digest())
+    return h.hexdigest()[:32]
+
+def refresh_target(td, crates=('lelwel',)):
+    """cargo decides by modification time whether a crate has to be rebuilt, and it identifies a workspace member by its path
+    RELATIVE to the workspace root.  Neither is good enough here: a target directory can outlive a restore of /repo (old mtimes on
+    changed files) and it may have been used last for another checkout (VERIF_REPO=<scratch worktree>), in which case cargo
+    would call the other checkout's binary fresh.  So every target directory carries a stamp = digest of the source tree it was
+    last built from; when the stamp differs from the current tree, the fingerprints of the crates under test are removed, which
+    forces cargo to rebuild them from the current source (third-party dependencies stay compiled).
+    Returns the digest; the caller writes it with stamp_target after a successful build."""
+    dg = source_digest()
+    st = os.path.join(td, 'verif-source.stamp')
+    have = open(st).read().strip() if os.path.exists(st) else None
+    if have != dg:
+        if os.path.exists(st): os.remove(st)
+        import glob
+        for c in crates:
+            for prof in ('debug', 'release'):
+                for p in glob.glob(os.path.join(td, prof, '.fingerprint', c + '-*')): shutil.rmtree(p, ignore_errors=True)
+    return dg
+
+def stamp_target(td, dg):
+    with open(os.path.join(td, 'verif-source.stamp.tmp%d' % os.getpid()), 'w') as f: f.write(dg)
+    os.replace(os.path.join(td, 'verif-source.stamp.tmp%d' % os.getpid()), os.path.join(td, 'verif-source.stamp'))
+
 _llw = [None]
+LLW_INFO = {}
 def build_llw():
     """cargo build of the llw binary from the CURRENT /repo working tree (own target dir, offline)."""
     if _llw[0]: return _llw[0]
@@ -21,18 +59,24 @@ def build_llw():
     import fcntl
     with open(lock, 'w') as lf:
         fcntl.flock(lf, fcntl.LOCK_EX)
+        dg = refresh_target(td)
         r = sh(['cargo', 'build', '--offline', '--features', 'cli', '--bin', 'llw', '--target-dir', td,
                 '--manifest-path', os.path.join(REPO, 'Cargo.toml')], cwd=REPO)
         if r.returncode != 0:
             raise RuntimeError('cannot build llw from ' + REPO + ':\n' + r.stderr[-3000:])
-        # private copy, so that a concurrent rebuild cannot swap the binary under a running check
+        if source_digest() != dg:
+            raise RuntimeError('the source tree ' + REPO + ' changed while llw was being built')
+        stamp_target(td, dg)
+        # private copy, named after the source tree it was built from, so that a concurrent rebuild (or a build of another
+        # checkout) cannot swap the binary under a running check
         dst = os.path.join(WORK, 'bin'); os.makedirs(dst, exist_ok=True)
         src = os.path.join(td, 'debug', 'llw')
         h = hashlib.sha256(open(src, 'rb').read()).hexdigest()[:16]
-        out = os.path.join(dst, 'llw-' + h)
+        out = os.path.join(dst, 'llw-' + dg[:16] + '-' + h)
         if not os.path.exists(out):
-            shutil.copy2(src, out + '.tmp'); os.replace(out + '.tmp', out)
+            shutil.copy2(src, out + '.tmp%d' % os.getpid()); os.replace(out + '.tmp%d' % os.getpid(), out)
     _llw[0] = out
+    LLW_INFO.update(repo=REPO, source_digest=dg, llw_sha256_16=h)
     return out
 
 def run_llw(text, flags=(), keep=None):
